@@ -1321,7 +1321,12 @@ def t_opt_cmp_fold(facts, res, tier):
             elif not calls or not all(numeric_fns[x["func"]["segs"][-1]] for x in calls):
                 res.fail(key, facts.where(fn, node), "optimize() deletes `%s #m / BEQ` on a condition (`%s`) that is not a numeric comparison of the two immediates" % (cmp_, _norm(c)[:80]))
         else:
-            if not textual_eq and not calls:
+            # 'holds the same': the same operand text, or a numeric *equality*; "not known to differ" is not "equal"
+            negated = [x for x in walk(c) if x.get("k") == "unary" and x["op"] == "!" and any(y.get("k") == "call" and y["func"].get("k") == "path" and y["func"]["segs"][-1] in numeric_fns for y in walk(x["e"]))]
+            positive_calls = [x for x in calls if not any(any(y is x for y in walk(ng["e"])) for ng in negated)]
+            if negated and not textual_eq and not positive_calls:
+                res.fail(key, facts.where(fn, node), "optimize() deletes `%s #m / BNE` when the register's immediate is *not known to differ* from m (`%s`): for a symbolic immediate (`#<table`) nothing is known, so an `if (r == K)` body loses its guard" % (cmp_, _norm(negated[0])[:60]))
+            elif not textual_eq and not positive_calls:
                 res.fail(key, facts.where(fn, node), "optimize() deletes `%s #m / BNE` without establishing that the register holds m" % cmp_)
     if n == 0:
         raise AnchorMissing("optimize(): compare folding (remove_both under CMP/CPX/CPY + BEQ/BNE) not found")
@@ -1911,3 +1916,231 @@ def _undefine_guarded(facts):
                 if not any(d[0] == "cond" and d[2] and ("get_macro(%s).is_some()" % a) in _norm(d[1]) for d in doms):
                     return False, None
     return cnt > 0, "undefine() searches the chunks for a name its %d caller(s) know to be defined (get_macro(..).is_some()); defs and the chunk tables hold the same names (T-CPP-PARALLEL)" % cnt
+
+
+# ----------------------------------------------------------------------------- shortcuts decided on one byte of a constant
+
+
+@rule("T-BYTE-SHORTCUT", floor=4,
+      text="in the code generator a shortcut taken because one byte of a constant operand has a particular value (`(v & 0xff) == 0`, "
+           "`v & 0xff00 == 0`, `v & 0xff == 0xff`) decides the result for that byte only: every value returned under such a test is returned "
+           "where `high_byte` is known to select the same byte (low byte: `!high_byte`, high byte: `high_byte`).  A test of the low byte that "
+           "also answers the high-byte pass gives `s & 0x1ff` the value of `s & 0xff`")
+def t_byte_shortcut(facts, res, tier):
+    n = 0
+    for fn in facts.fns:
+        if "/generate/" not in fn["file"]:
+            continue
+        if not any(p.get("name") == "high_byte" for p in fn["params"]):
+            continue
+        sc = scoped(fn)
+        for node, env, doms in sc:
+            if node.get("k") != "if":
+                continue
+            tested = None
+            for x in walk(node["cond"]):
+                if x.get("k") == "binary" and x["op"] == "==" and _int_lit(x["r"]) is not None:
+                    l = strip(x["l"])
+                    if isinstance(l, dict) and l.get("k") == "binary" and l["op"] == "&" and _int_lit(l["r"]) in (0xff, 0xff00) and _const_origin(l["l"], env):
+                        tested = ("low" if _int_lit(l["r"]) == 0xff else "high", _norm(x))
+            if tested is None:
+                continue
+            which, txt = tested
+            n += 1
+            key = "T-BYTE-SHORTCUT:%s:%s" % (fn["name"], txt[:40])
+            want = "!high_byte" if which == "low" else "high_byte"
+            # polarity of high_byte known from the condition itself or from what dominates the if
+            def polarity(conds):
+                for c, pol in conds:
+                    for part in _and_parts(c):
+                        t = _norm(part)
+                        if t == "high_byte":
+                            return "high_byte" if pol else "!high_byte"
+                        if t == "!high_byte":
+                            return "!high_byte" if pol else "high_byte"
+                return None
+            outer = [(d[1], d[2]) for d in doms if d[0] == "cond"] + [(node["cond"], True)]
+            known = polarity(outer)
+            bad = []
+            if known is None:
+                # every value produced inside the branch must sit under a nested high_byte test of the right polarity
+                for n2, env2, doms2 in sc:
+                    if n2.get("k") == "return" and any(y is n2 for y in walk(node["then"])):
+                        inner = [(d[1], d[2]) for d in doms2 if d[0] == "cond"]
+                        pol = polarity(inner)
+                        if pol != want:
+                            bad.append((n2, pol))
+            elif known != want:
+                bad.append((node, known))
+            res.inst(key, True, {"function": fn["name"], "test": txt, "byte": which, "high_byte_known": known})
+            for b, pol in bad[:1]:
+                res.fail(key, facts.where(fn, b), "%s takes a shortcut on the %s byte of a constant (`%s`) and returns a result %s: the other byte of the constant is not looked at, so `s & 0x1ff` is computed as `s & 0xff`" % (fn["name"], which, txt, ("where `%s` holds" % pol) if pol else "for both passes of a 16-bit evaluation"))
+    if n == 0:
+        raise AnchorMissing("no per-byte shortcut on a constant operand found in the generator")
+
+
+def _and_parts(c):
+    c = strip(c) if isinstance(c, dict) else c
+    if isinstance(c, dict) and c.get("k") == "binary" and c["op"] == "&&":
+        return _and_parts(c["l"]) + _and_parts(c["r"])
+    return [c]
+
+
+# ----------------------------------------------------------------------------- the expansion fixed point
+
+
+@rule("T-FIXPOINT-FLAG", floor=1,
+      text="macro expansion repeats until a whole pass over the macro tables changes nothing: the flag that asks for another pass is lowered "
+           "only at the start of a pass and, inside the pass, only ever raised (`changed = true`).  Assigning it the outcome of the *last* "
+           "macro tried forgets that an earlier macro of the same pass changed the line: nested calls and macros used in bodies stay half "
+           "expanded")
+def t_fixpoint_flag(facts, res, tier):
+    fn = facts.fn("replace_all", "Context")
+    loops = [n for n in walk(fn["body"]) if n.get("k") in ("loop", "while")]
+    if not loops:
+        raise AnchorMissing("replace_all: fixed-point loop not found")
+    lp = loops[0]
+    body = lp["body"].get("stmts", [])
+    flag = None
+    for s0 in body[:2]:
+        if s0.get("k") == "assign" and _norm(s0["r"]) == "false":
+            flag = simple_name(s0["l"])
+    if flag is None:
+        raise AnchorMissing("replace_all: no flag is lowered at the start of a pass")
+    # the flag decides the exit
+    decides = any(x.get("k") == "if" and flag in re.findall(r"\w+", _norm(x["cond"])) and any(y.get("k") == "break" for y in walk(x["then"])) for x in walk(lp["body"]))
+    n = 0
+    for x in walk(lp["body"]):
+        if x.get("k") in ("assign", "assignop") and simple_name(x["l"]) == flag and x is not body[0] and not (x in body[:2] and _norm(x.get("r")) == "false"):
+            n += 1
+            key = "T-FIXPOINT-FLAG:replace_all:%s#%d" % (flag, n)
+            rt = _norm(x["r"])
+            ok = x.get("k") == "assign" and rt == "true" or (x.get("k") == "assignop" and x["op"] == "|")
+            res.inst(key, True, {"flag": flag, "assigned": rt[:60], "raise_only": ok})
+            if not ok:
+                res.fail("T-FIXPOINT-FLAG:replace_all:%s:not-raise-only" % flag, facts.where(fn, x), "inside a pass of replace_all `%s` is assigned `%s`: a macro that changes nothing lowers the flag an earlier macro of the same pass had raised, and expansion stops half way (`add(add(add(1,2),3),LIMIT)` gives `add(1,2)+3+4`)" % (flag, rt[:60]))
+    res.inst("T-FIXPOINT-FLAG:replace_all:exit", True, {"flag": flag, "decides_exit": decides})
+    if not decides:
+        res.fail("T-FIXPOINT-FLAG:replace_all:exit", facts.where(fn, lp), "the pass loop of replace_all does not leave on `%s` being false" % flag)
+    if n == 0:
+        res.fail("T-FIXPOINT-FLAG:replace_all:never-raised", facts.where(fn, lp), "`%s` is never raised inside a pass: expansion stops after one pass" % flag)
+
+
+# ----------------------------------------------------------------------------- grammar: the guard of a repetition is the next keyword
+
+
+def _first_literal(rules, e, depth=0):
+    if depth > 6 or not isinstance(e, dict):
+        return None
+    k = e.get("k")
+    if k == "str":
+        return e["v"]
+    if k == "insens":
+        return e["v"]
+    if k == "ident":
+        r = rules.get(e["v"])
+        return _first_literal(rules, r["expr"], depth + 1) if r else None
+    if k == "seq":
+        return _first_literal(rules, e["a"], depth + 1)
+    if k in ("opt", "rep", "rep1", "repn", "push", "pospred"):
+        return _first_literal(rules, e["e"], depth + 1)
+    return None
+
+
+@rule("T-GRAMMAR-GUARD", floor=1,
+      text="where the grammar keeps the keyword of what follows out of a repetition with a negative look-ahead (`(!\"default\" ~ statement)* ~ "
+           "default_case?`), the look-ahead names exactly the first literal of what follows.  Tokens of a non-atomic rule may be separated by "
+           "white space and comments, so a longer literal (`!\"default:\"`) lets `default :` into the repetition, where it is parsed as something "
+           "else (a goto label: the default arm joins the previous case and `.default` is defined once per switch)")
+def t_grammar_guard(facts, res, tier):
+    rules = facts.grammar_rules()
+    n = 0
+
+    def visit(rname, e):
+        nonlocal n
+        if not isinstance(e, dict):
+            return
+        if e.get("k") == "seq":
+            a, b = e["a"], e["b"]
+            # a = ... rep( seq(negpred(str L), X) ) possibly at the tail of a nested seq / rep
+            guards = []
+            def tail_reps(x):
+                if not isinstance(x, dict):
+                    return
+                if x.get("k") in ("rep", "rep1") and isinstance(x["e"], dict):
+                    inner = x["e"]
+                    if inner.get("k") == "seq" and isinstance(inner["a"], dict) and inner["a"].get("k") == "negpred" and inner["a"]["e"].get("k") == "str":
+                        guards.append(inner["a"]["e"]["v"])
+                    # a repetition whose body ends in such a repetition
+                    tail_reps(inner)
+                elif x.get("k") == "seq":
+                    tail_reps(x["b"])
+            tail_reps(a)
+            for L in guards:
+                fl = _first_literal(rules, b)
+                n += 1
+                key = "T-GRAMMAR-GUARD:%s:%s" % (rname, L[:20])
+                res.inst(key, True, {"rule": rname, "look_ahead": L, "next_begins_with": fl})
+                if fl is None:
+                    res.fail(key, "src/cc6502.pest:%s" % rules[rname].get("line"), "rule `%s`: cannot tell what follows the repetition guarded by !\"%s\"" % (rname, L))
+                elif fl != L:
+                    res.fail(key, "src/cc6502.pest:%s" % rules[rname].get("line"), "rule `%s` guards a repetition with !\"%s\" but what follows begins with the token \"%s\": input that separates the tokens differently (`default :`) passes the guard and is parsed as part of the repetition" % (rname, L, fl))
+        for v in e.values():
+            if isinstance(v, dict):
+                visit(rname, v)
+
+    for rname, r in rules.items():
+        visit(rname, r["expr"])
+    if n == 0:
+        raise AnchorMissing("no repetition guarded by a negative look-ahead literal found in the grammar")
+
+
+# ----------------------------------------------------------------------------- the size of an asm statement
+
+
+@rule("T-ASM-HINT-CHAIN", floor=4,
+      text="the size declared for an asm statement (or the default when none is given) reaches the code vector unchanged and whole: from the "
+           "statement through generate_asm_statement and GeneratorState::inline to AssemblyCode::append_inline every hand-over passes the "
+           "Option it received, untouched; append_inline records exactly one Inline line per statement whose size is `size.unwrap_or(<the "
+           "default>)` - no arithmetic on the hint, no per-line split, no special case by the text of the statement.  size_bytes and the branch "
+           "checker add up exactly these numbers")
+def t_asm_hint_chain(facts, res, tier):
+    from genmodel import GEN_QUAL
+    chain = [("generate_asm_statement", GEN_QUAL, "inline"), ("inline", GEN_QUAL, "append_inline")]
+    for fname, qual, callee in chain:
+        fn = facts.fn(fname, qual)
+        sizep = [p["name"] for p in fn["params"] if "Option" in (p.get("ty") or "") and "u32" in (p.get("ty") or "")]
+        if not sizep:
+            raise AnchorMissing("%s: no Option<u32> size parameter" % fname)
+        sp = sizep[0]
+        calls = [(n, env) for n, env, doms in scoped(fn) if n.get("k") == "mcall" and n["method"] == callee]
+        key = "T-ASM-HINT-CHAIN:%s->%s" % (fname, callee)
+        res.inst(key, True, {"calls": len(calls), "size_parameter": sp})
+        if len(calls) != 1:
+            res.fail(key, facts.where(fn), "%s hands the statement to %s() %d times (expected once)" % (fname, callee, len(calls)))
+            continue
+        n, env = calls[0]
+        passed = [a for a in n.get("args", []) if simple_name(a) == sp]
+        b = env.get(sp)
+        if not passed or b is None or b.src != "param":
+            how = "a rebound `%s` (%s)" % (sp, _norm(b.init)[:60] if b is not None and b.init is not None else "?") if passed else "something else (%s)" % ", ".join(_norm(a)[:30] for a in n.get("args", []))
+            res.fail(key, facts.where(fn, n), "%s does not pass the size it received on to %s(): it passes %s - the recorded size of the statement is no longer its declared or default size" % (fname, callee, how))
+    ai = facts.fn("append_inline", "AssemblyCode")
+    sizep = [p["name"] for p in ai["params"] if "Option" in (p.get("ty") or "")]
+    pushes = [(n, env, doms) for n, env, doms in scoped(ai) if n.get("k") == "call" and _norm(n["func"]) == "AsmLine::Inline"]
+    key = "T-ASM-HINT-CHAIN:append_inline"
+    res.inst(key, True, {"inline_lines_built": len(pushes)})
+    if len(pushes) != 1 or not sizep:
+        res.fail(key, facts.where(ai), "append_inline builds %d Inline lines (expected exactly one per statement)" % len(pushes))
+    else:
+        n, env, doms = pushes[0]
+        in_loop = any(x.get("k") in ("for", "while", "loop") and any(y is n for y in walk(x)) for x in walk(ai["body"]))
+        szarg = n["args"][1] if len(n.get("args", [])) > 1 else None
+        t = _norm(szarg) if szarg is not None else ""
+        m = re.match(r"^%s\.unwrap_or\((\d+)\)$" % re.escape(sizep[0]), t)
+        b = env.get(sizep[0])
+        res.inst(key + ":size", True, {"size": t, "default": m.group(1) if m else None})
+        if in_loop:
+            res.fail(key, facts.where(ai, n), "append_inline records the statement inside a loop: the declared size is divided between several lines and what the division drops is lost")
+        if not m or b is None or b.src != "param":
+            res.fail(key + ":size", facts.where(ai, n), "append_inline records the size `%s`, not `%s.unwrap_or(<default>)` of the hint it was given" % (t[:60], sizep[0]))
